@@ -145,6 +145,44 @@ struct Srv : public WebSocketServer
 	void serve(WebSocket& ws) {}
 };
 
+// one step of a scripted conversation over a real handshake: 'u' = client sends, 'd' = server sends
+struct Step { char dir; int type; std::string data; };
+
+struct ScriptSrv : public WebSocketServer
+{
+	const std::vector<Step>* script;
+	std::vector<std::string> got;
+	bool negative;
+	ScriptSrv() : script(0), negative(false) {}
+	void serve(WebSocket& ws)
+	{
+		for (size_t i = 0; i < script->size(); i++)
+		{
+			const Step& st = (*script)[i];
+			if (st.dir == 'u') {
+				WebSocketMsg m = ws.receive();
+				if (m.length() < 0) { negative = true; return; }
+				ByteArray a = m;
+				got.push_back(std::string((const char*)a.data(), (size_t)a.length()));
+			}
+			else {
+				Exact d(st.data);
+				ws.send((const byte*)d.p, (int)d.n, (WebSocket::FrameType)st.type);
+			}
+		}
+		// wait for the client to finish reading and close
+		ws.receive();
+	}
+};
+
+static std::string showList(const std::vector<std::string>& v)
+{
+	if (v.empty()) return "-";
+	std::string s;
+	for (size_t i = 0; i < v.size(); i++) s += (i ? "," : "") + str((long long)v[i].size()) + ":" + showBytes(v[i]);
+	return s;
+}
+
 static bool role(const std::string& s, bool& isClient)
 {
 	if (s == "c") { isClient = true; return true; }
@@ -244,6 +282,55 @@ static std::string step(const Toks& t)
 		}
 		peer.join();
 		return hex(peer.got);
+	}
+	if (op == "tcp" && t.size() >= 3 && (t.size() - 3) % 3 == 0)
+	{
+		// library client <-> library server over loopback TCP, both real handshakes
+		std::string st = unhex(t[1]), path = unhex(t[2]);
+		if (st.size() != 32) return "bad-op";
+		std::vector<Step> script;
+		for (size_t i = 3; i + 2 < t.size(); i += 3) {
+			Step x; x.dir = t[i][0]; x.type = (int)num(t[i + 1]); x.data = unhex(t[i + 2]);
+			if ((x.dir != 'u' && x.dir != 'd') || x.data.empty()) return "bad-op";
+			script.push_back(x);
+		}
+		Socket listener;
+		if (!listener.bind("127.0.0.1", 0)) return "err bind";
+		listener.listen(1);
+		int port = listener.localAddress().port();
+		std::vector<std::string> cgot;
+		bool connected = false, cneg = false;
+		std::thread client([&]() {
+			WS ws(Socket(), true);
+			ws.setRng(st);
+			connected = ws.connect(String("ws://127.0.0.1") + String(path.data(), (int)path.size()), port);
+			if (!connected) return;
+			for (size_t i = 0; i < script.size(); i++)
+			{
+				const Step& x = script[i];
+				if (x.dir == 'u') {
+					Exact d(x.data);
+					ws.send((const byte*)d.p, (int)d.n, (WebSocket::FrameType)x.type);
+				}
+				else {
+					WebSocketMsg m = ws.receive();
+					if (m.length() < 0) { cneg = true; break; }
+					ByteArray a = m;
+					cgot.push_back(std::string((const char*)a.data(), (size_t)a.length()));
+				}
+			}
+			ws.close();
+		});
+		ScriptSrv srv;
+		srv.script = &script;
+		{
+			Socket s = listener.accept();
+			static_cast<SocketServer&>(srv).serve(s);
+		}
+		client.join();
+		listener.close();
+		if (cneg || srv.negative) return "negative-length";
+		return std::string("connect=") + (connected ? "1" : "0") + " s=" + showList(srv.got) + " c=" + showList(cgot);
 	}
 	return "bad-op";
 }
